@@ -29,6 +29,7 @@ def anchors(pid):
 
 def measure(pid, tier, seed):
     mod = importlib.import_module("vlib.props." + pid.lower())
+    flags = FLAGS + (["-fsanitize=thread"] if getattr(mod, "VARIANT", "asan") == "tsan" else [])
     work = "/tmp/cov_%s" % pid
     shutil.rmtree(work, ignore_errors=True)
     os.makedirs(work + "/obj")
@@ -36,7 +37,7 @@ def measure(pid, tier, seed):
 
     def one(src):
         obj = os.path.join(work, "obj", src.replace(core.REPO, "").strip("/").replace("/", "_") + ".o")
-        p = core.sh(["g++"] + FLAGS + core.COMMON_FLAGS + ["-c", src, "-o", obj])
+        p = core.sh(["g++"] + flags + core.COMMON_FLAGS + ["-c", src, "-o", obj])
         if p.returncode != 0:
             raise SystemExit("compile failed: %s\n%s" % (src, p.stderr[-2000:]))
         return obj
@@ -45,7 +46,7 @@ def measure(pid, tier, seed):
         objs = list(ex.map(one, srcs))
     exe = os.path.join(work, "harness")
     hsrc = os.path.join(VERIF, "harness", mod.HARNESS + ".cpp")
-    p = core.sh(["g++"] + FLAGS + core.COMMON_FLAGS + list(getattr(mod, "HARNESS_FLAGS", ())) + [hsrc] + objs + ["-o", exe, "-lpthread"],
+    p = core.sh(["g++"] + flags + core.COMMON_FLAGS + list(getattr(mod, "HARNESS_FLAGS", ())) + [hsrc] + objs + ["-o", exe, "-lpthread"],
                 cwd=work)
     if p.returncode != 0:
         raise SystemExit("harness link failed:\n" + p.stderr[-3000:])
@@ -102,7 +103,11 @@ def main():
     except Exception:
         allres = {}
     for pid in pids:
-        r = measure(pid, tier, seed)
+        try:
+            r = measure(pid, tier, seed)
+        except SystemExit as e:
+            print("%s: %s" % (pid, str(e)[:500]))
+            continue
         allres[pid] = r
         for rel, f in r["files"].items():
             if "error" in f:
